@@ -88,6 +88,16 @@ func runC03(c *fw.Ctx) {
 	nAlt := c.Pick(4, 7)
 	scheds := []c03Schedule{{name: "never-flush"}}
 	kinds := r.Perm(7)
+	if realClock {
+		// every real-clock case runs the sorted-flush schedule (it is the only one that reaches the external sorter)
+		has := false
+		for _, k := range kinds[:nAlt] {
+			has = has || k == 4
+		}
+		if !has {
+			kinds[nAlt-1] = 4
+		}
+	}
 	for _, k := range kinds[:nAlt] {
 		if !realClock && k >= 4 {
 			k = k - 4 // no restarts on the virtual clock
@@ -121,7 +131,7 @@ func runC03(c *fw.Ctx) {
 			for j := 0; j < 2+r.Intn(6); j++ {
 				s.reopenAt[1+r.Intn(n-1)] = true
 			}
-			s.pressure = r.Intn(2) == 0
+			s.pressure = r.Intn(3) == 0
 		case 5:
 			s.name = "reopen"
 			for j := 0; j < 1+r.Intn(3); j++ {
